@@ -215,22 +215,22 @@ type kase struct {
 	relativeArgv0    bool // the caller child is started through a relative path (./prog)
 	// bareArgv0: the caller child was found through $PATH - os.Args[0] is the bare program name, the working directory is
 	// somewhere else (how a shell starts an installed program); re-executing os.Args[0] looks it up again
-	bareArgv0 bool
-	nested           bool // the launched daemon is a supervisor: it launches a worker daemon itself before Done()
-	shortLived       bool // the handler returns right after Done(): Launch still reports the pid it ran under
-	ignoresSigint    bool // the caller child runs with SIGINT ignored (nohup, background job)
+	bareArgv0     bool
+	nested        bool // the launched daemon is a supervisor: it launches a worker daemon itself before Done()
+	shortLived    bool // the handler returns right after Done(): Launch still reports the pid it ran under
+	ignoresSigint bool // the caller child runs with SIGINT ignored (nohup, background job)
 	// hangup: the caller child runs under nohup - SIGHUP ignored, a process group of its own - and the terminal goes away
 	// (SIGHUP to the whole group) while the daemon is still on its way to Done(). Caller, launcher and daemon all inherit
 	// the ignored signal: nothing happens, and Launch returns when Done() has been called - not when the hang-up comes
-	hangup bool
-	rendezvous       bool // concurrent launches only: every daemon waits (up to 3 s) for its peers to have started before it calls Done()
-	oddNames         bool // the handlers asked for are registered under names with blanks at the edges, other letter case, a tab or newline
-	stopAfterDone    bool // the daemon stops itself (SIGSTOP) right after Done(); it is continued once Launch has returned
-	stopCont         bool // the daemon is stopped and continued (SIGSTOP / SIGCONT) a few times before it reaches Done()
-	detach           int  // before Done() the handler calls 1: setsid(), 2: setpgid(0, 0)
-	execs            bool // after Done() the handler replaces its process image (syscall.Exec) and lives on as another program
-	childOnly        bool // the first launch asks for a handler that is registered in the re-executed processes only
-	doneFrom         int  // 0: Done() is called by the handler's goroutine; 1: by another goroutine; 2: by a goroutine locked to a thread that ends with it
+	hangup        bool
+	rendezvous    bool // concurrent launches only: every daemon waits (up to 3 s) for its peers to have started before it calls Done()
+	oddNames      bool // the handlers asked for are registered under names with blanks at the edges, other letter case, a tab or newline
+	stopAfterDone bool // the daemon stops itself (SIGSTOP) right after Done(); it is continued once Launch has returned
+	stopCont      bool // the daemon is stopped and continued (SIGSTOP / SIGCONT) a few times before it reaches Done()
+	detach        int  // before Done() the handler calls 1: setsid(), 2: setpgid(0, 0)
+	execs         bool // after Done() the handler replaces its process image (syscall.Exec) and lives on as another program
+	childOnly     bool // the first launch asks for a handler that is registered in the re-executed processes only
+	doneFrom      int  // 0: Done() is called by the handler's goroutine; 1: by another goroutine; 2: by a goroutine locked to a thread that ends with it
 }
 
 func (k kase) name(i int) string {
